@@ -1466,6 +1466,7 @@ func main() {
 	funcs := flag.String("funcs", "", "for the self-test only: comma-separated dir:func list replacing the built-in kernel list")
 	no2 := flag.Bool("no2", false, "do not write Kernels2.v (monadic mode)")
 	no3 := flag.Bool("no3", false, "do not write Kernels3.v (third mode)")
+	no4 := flag.Bool("no4", false, "do not write Kernels4.v (fourth mode)")
 	flag.Parse()
 	if *funcs != "" {
 		kernels = nil
@@ -1554,7 +1555,30 @@ func main() {
 		fmt.Fprintf(os.Stderr, "gotrans: %d function(s) could not be translated; %s, %s and %s left untouched (the tie to the source is BROKEN)\n", len(errs3), *out, out2, out3)
 		os.Exit(1)
 	}
+	out4 := filepath.Join(filepath.Dir(*out), "Kernels4.v")
+	text4, errs4 := "", []string(nil)
+	if text3 != "" && !*no4 {
+		text4, errs4 = buildKernels4(*repo, kernels3, kernels4)
+	}
+	if len(errs4) > 0 {
+		for _, e := range errs4 {
+			fmt.Fprintln(os.Stderr, "gotrans:", e)
+		}
+		fmt.Fprintf(os.Stderr, "gotrans: %d function(s) could not be translated; %s, %s, %s and %s left untouched (the tie to the source is BROKEN)\n", len(errs4), *out, out2, out3, out4)
+		os.Exit(1)
+	}
 	changed := 0
+	if text4 != "" {
+		old4, _ := os.ReadFile(out4)
+		if !bytes.Equal(old4, []byte(text4)) {
+			if err := os.WriteFile(out4, []byte(text4), 0o644); err != nil {
+				fmt.Fprintln(os.Stderr, "gotrans:", err)
+				os.Exit(2)
+			}
+			fmt.Println("updated", out4)
+			changed++
+		}
+	}
 	if text3 != "" {
 		old3, _ := os.ReadFile(out3)
 		if !bytes.Equal(old3, []byte(text3)) {
